@@ -563,7 +563,18 @@ type DrainResult struct {
 // returns, or until max items were delivered (then the context is cancelled), with a
 // watchdog. Items are in acquisition order only when consumers == 1.
 func Drain(p core.Provider, consumers, max int, watchdog time.Duration) DrainResult {
+	return drain(p, consumers, max, watchdog, 0)
+}
+
+// DrainLate is Drain with one consumer that only begins to acquire once Run has returned, or
+// after the given delay if Run is still going (blocked on its full queue) by then.
+func DrainLate(p core.Provider, max int, watchdog, delay time.Duration) DrainResult {
+	return drain(p, 1, max, watchdog, delay)
+}
+
+func drain(p core.Provider, consumers, max int, watchdog, lateBy time.Duration) DrainResult {
 	ctx, cancel := context.WithCancel(context.Background())
+	runReturned := make(chan struct{})
 	defer cancel()
 	var res DrainResult
 	runDone := make(chan error, 1)
@@ -580,7 +591,7 @@ func Drain(p core.Provider, consumers, max int, watchdog time.Duration) DrainRes
 	}
 	go func() {
 		var err error
-		defer func() { runDone <- err }()
+		defer func() { runDone <- err; close(runReturned) }()
 		defer notePanic("Provider.Run")
 		err = p.Run(ctx, core.ProviderDeps{Log: zap.NewNop(), PoolID: "verif"})
 	}()
@@ -591,6 +602,12 @@ func Drain(p core.Provider, consumers, max int, watchdog time.Duration) DrainRes
 		go func() {
 			defer wg.Done()
 			defer notePanic("Provider.Acquire/Release")
+			if lateBy > 0 {
+				select {
+				case <-runReturned:
+				case <-time.After(lateBy):
+				}
+			}
 			for {
 				a, ok := p.Acquire()
 				if !ok {
